@@ -247,7 +247,7 @@ package jsonrpc2
 //@   ensures result <==> id.value != nil
 
 // (*WireError).Is: two wire errors are the same error iff their codes agree.
-//@ func (*WireError).Is [C19]
+//@ func (*WireError).Is [C19, C13, C02]
 //@   requires err != nil
 //@   ensures @code-equality result <==> (typeIs(other, *WireError) && other.(*WireError) != nil && err.Code == other.(*WireError).Code)
 
